@@ -40,7 +40,7 @@ class SimClock:
     def _cache_threads(self):
         return {t.ident for t in threading.enumerate() if t.name == THREAD_NAME and t.ident is not None}
 
-    def settle(self, timeout=20.0):
+    def settle(self, timeout=300.0):
         """Wait until every live plan-cache thread is parked in sleep()."""
         with self._cv:
             waited = 0.0
